@@ -68,6 +68,7 @@ func NewRegistry(o *Options) *minify.M {
 	m.AddRegexp(xmlRe, o.XML)
 	m.AddFunc(MTStream, streamStub)
 	m.AddFunc(MTFail, failStub)
+	m.AddFunc(MTEarly, earlyStub)
 	return m
 }
 
@@ -78,6 +79,7 @@ func NewRegistry(o *Options) *minify.M {
 const (
 	MTStream = "text/x-stream"
 	MTFail   = "text/x-fail"
+	MTEarly  = "text/x-early"
 )
 
 var ErrStubFailed = errors.New("stub minifier: failed after half of the output")
@@ -99,6 +101,18 @@ func streamStub(_ *minify.M, w io.Writer, r io.Reader, _ map[string]string) erro
 		}
 	}
 	_, err := w.Write(nil)
+	return err
+}
+
+// earlyStub succeeds after looking at the first bytes only, like a command that exits 0
+// without draining its input (head -c N): the wrappers must not leave the producer blocked.
+func earlyStub(_ *minify.M, w io.Writer, r io.Reader, _ map[string]string) error {
+	buf := make([]byte, 5)
+	n, err := io.ReadFull(r, buf)
+	if err != nil && err != io.EOF && err != io.ErrUnexpectedEOF {
+		return err
+	}
+	_, err = w.Write(bytes.ToUpper(buf[:n]))
 	return err
 }
 
@@ -155,6 +169,7 @@ type Op struct {
 	MatchNil   bool
 	Panic      string
 	Finished   bool
+	scratch    []byte
 }
 
 func (op *Op) reader() io.Reader {
@@ -321,7 +336,17 @@ func (op *Op) produce(y *sim.Point, w io.Writer) {
 		if y.Aborted() {
 			return
 		}
-		k, err := w.Write(rest[:n])
+		// like io.Copy or bufio, the producer reuses one buffer: a Writer must not retain p
+		// after Write returns, so the buffer is overwritten as soon as the call is back
+		if cap(op.scratch) < n {
+			op.scratch = make([]byte, n)
+		}
+		buf := op.scratch[:n]
+		copy(buf, rest[:n])
+		k, err := w.Write(buf)
+		for i := range buf {
+			buf[i] = 0xA5
+		}
 		if err != nil {
 			op.WriteErrs = append(op.WriteErrs, err)
 			return
